@@ -41,7 +41,7 @@ var c10Cmds = []c10Cmd{
 	{[]string{"csv", "database"}, true, false}, {[]string{"csv", "database-resolved"}, true, false}, {[]string{"print"}, false, true},
 	{[]string{"report", "totals"}, true, true}, {[]string{"report", "quantity"}, false, true}, {[]string{"report", "unresolved"}, true, true},
 	{[]string{"report", "element-total", "cal"}, true, false}, {[]string{"summary", "2021/01/24"}, true, true},
-	{[]string{"reg", "-s", "cal"}, true, true}, {[]string{"bal", "-s", "cal"}, true, true}, {[]string{"lint", "log.yaml"}, false, true},
+	{[]string{"reg", "-s", "cal"}, true, true}, {[]string{"bal", "-s", "cal"}, true, true}, {[]string{"lint", "log.yaml"}, false, true}, {[]string{"lint", "--silent", "log.yaml"}, false, true},
 }
 
 func parseWithReader(r *faultReader) (string, error, string) {
@@ -261,7 +261,7 @@ func checkC10(w *Worker) {
 				return
 			}
 			if cmd.Args[0] == "lint" {
-				cmd.Args = []string{"lint", "adir"}
+				cmd.Args = append(append([]string{}, cmd.Args[:len(cmd.Args)-1]...), "adir")
 			} else {
 				args = append(args, "-l", "adir")
 			}
